@@ -804,6 +804,10 @@ def feat(schema):
         elif kind == "AnySchema":
             if has("types") and len(p.get("types")) == 0:
                 f.add("types_empty")
+            if has("types"):
+                for t in p.get("types"):
+                    if type(t).__name__ == "DictSchema" and t.props.get("keys") is not Nil and ... in t.props.get("keys"):
+                        f.add("alt_relaxed_dict")
     except Exception:
         f.add("feat_error")
     return kind, sorted(f)
